@@ -618,6 +618,7 @@ def groupby_histories(ctx, rid: str, depth: int = 4, consumption: bool = False) 
     gb_init = gb_cls.methods["__init__"]
     ip = gb_init.param_names()
     bad = undecided = 0
+    n_ops = [0]
     scenarios = []
     for n in range(0, 4):
         for pattern in _it.product("ab", repeat=n):
@@ -647,6 +648,7 @@ def groupby_histories(ctx, rid: str, depth: int = 4, consumption: bool = False) 
                 return
             for op in [("G",)] + [("I", k) for k in range(len(groups))]:
                 ctx.count("groupby_operations")
+                n_ops[0] += 1
                 if op[0] == "G":
                     kind, val, new = run_method(ctx, ops, gb_next, state, {gb_next.param_names()[0]: gb})
                 else:
@@ -693,6 +695,7 @@ def groupby_histories(ctx, rid: str, depth: int = 4, consumption: bool = False) 
 
         explore(state1, [], [], [])
     ctx.count("groupby_undecided", undecided)
+    _enough_decided(ctx, rid, "groupby", undecided, n_ops[0])
     if not bad:
         ctx.ok(rid, gb_next, f"groupby equals itertools.groupby on every history of up to {depth} operations over {len(scenarios)} sources")
 
@@ -727,6 +730,7 @@ def tee_histories(ctx, rid: str, depth: int = 5, consumption: bool = False) -> N
     ip = init.param_names()
     getitem = tee_cls.methods.get("__getitem__")
     bad = undecided = 0
+    n_ops = [0]
     for n_children in (2, 3):
         for n_items in range(0, 4):
             items = [("item", 0, i) for i in range(n_items)]
@@ -755,6 +759,7 @@ def tee_histories(ctx, rid: str, depth: int = 5, consumption: bool = False) -> N
                     return
                 for k in range(n_children):
                     ctx.count("tee_operations")
+                    n_ops[0] += 1
                     env = dict(state)
                     env.pop("@undecided", None)
                     val = ops._resume(children[k], env)
@@ -797,6 +802,7 @@ def tee_histories(ctx, rid: str, depth: int = 5, consumption: bool = False) -> N
 
             explore(state1, [])
     ctx.count("tee_undecided", undecided)
+    _enough_decided(ctx, rid, "tee", undecided, n_ops[0])
     if not bad:
         ctx.ok(rid, ctx.unit("itertools.tee_peer"), f"tee equals itertools.tee on every sequential history of up to {depth} requests")
 
@@ -851,6 +857,15 @@ def merge_table(ctx, rid: str, fields=None, faults: bool = False) -> None:
 
     T._tables(ctx, rid, [("heapq.merge", _merge_cells)], "asyncgen", "fault_base_cells" if faults else "merge_table_cells",
               fields or T.ITEMS_AND_END, make_ops=factory, faults=faults)
+
+
+def _enough_decided(ctx, rid: str, what: str, undecided: int, total: int) -> None:
+    """A history step the model cannot evaluate is never a violation - but a rule that cannot evaluate a good part of its
+    histories decides too little to be believed: that is an analysis error (exit 2), not a silent pass.  (Across the 212
+    refactorings of the neutral corpus at most 3 of about 2000 steps were undecided.)"""
+    if undecided > max(10, total // 50):
+        raise AnalysisError(f"{rid}: {undecided} of {total} {what} history steps are not evaluable over the object model: "
+                            "the histories decide too little (the model does not follow the code any more)")
 
 
 def _released(ops, state, k: int, n_items: int) -> bool:
